@@ -420,6 +420,10 @@ func (te *TEnv) step(cur TV, fi int) TV {
 }
 
 func (te *TEnv) nilOf(other TV) string {
+	if other.ip != nil && other.t == "" {
+		// pointer into an allocated object (embedded struct, field address): never nil
+		return "false"
+	}
 	switch other.sort {
 	case sortIface:
 		return "(= (itag " + other.t + ") 0)"
